@@ -3,6 +3,7 @@ package main
 import (
 	"context"
 	"fmt"
+	"sort"
 	"strings"
 	"sync"
 	"time"
@@ -12,6 +13,8 @@ import (
 	"github.com/brimdata/super/compiler/ast"
 	"github.com/brimdata/super/compiler/ast/dag"
 	"github.com/brimdata/super/compiler/data"
+	"github.com/brimdata/super/compiler/optimizer"
+	"github.com/brimdata/super/compiler/optimizer/demand"
 	"github.com/brimdata/super/order"
 	"github.com/brimdata/super/pkg/field"
 	"github.com/brimdata/super/pkg/storage"
@@ -37,6 +40,7 @@ type runResult struct {
 	DAG   string   // zfmt.DAG of the executed plan
 	Canon string   // canonical form of the executed plan (see canon.go)
 	Mode  string   // for a plan as analyzed: "seq" | "bag" | "" (see planMode in corpus.go)
+	Dem   string   // optimized plans: the demand on the source's output, "*" or sorted field paths
 	Err   error
 }
 
@@ -102,6 +106,9 @@ func runProgram(ctx context.Context, program string, o runOpts, inputs ...string
 	}
 	res.DAG = zfmt.DAG(job.Entry())
 	res.Canon = canonSeq(job.Entry())
+	if !o.NoOptimize {
+		res.Dem = demandOf(job.Entry())
+	}
 	var readers []zio.Reader
 	for _, in := range inputs {
 		readers = append(readers, flowh.ZSONReader(zctx, in))
@@ -147,6 +154,29 @@ func parseCached(program string) (ast.Seq, error) {
 	parseCache[program] = seq
 	parseMu.Unlock()
 	return seq, nil
+}
+
+// demandOf is what insertDemand computes for the source of an optimized plan
+// (it stores it only in dag.SeqScan.Fields): demand.Fields of the demand on the
+// first operator's output.
+func demandOf(entry dag.Seq) (out string) {
+	defer func() {
+		if recover() != nil {
+			out = "panic"
+		}
+	}()
+	if len(entry) == 0 {
+		return "*"
+	}
+	var fs []string
+	for _, p := range demand.Fields(optimizer.InferDemandSeqOut(entry)[entry[0]]) {
+		fs = append(fs, strings.Join(p, "."))
+	}
+	if len(fs) == 0 {
+		return "*"
+	}
+	sort.Strings(fs)
+	return strings.Join(fs, ",")
 }
 
 func hasDefaultScan(seq dag.Seq) bool {
